@@ -435,5 +435,21 @@ def replay(ctx, path):
     exe = vlib.cc_harness(ctx, "h2_h", link_srcs=LINK)
     _, oi, _ = vlib.run_lines(exe, [case], args=["body"])
     print("input:", case[:1000]); print("impl :", oi[0][:2000] if oi else None); print("recorded reason:", obj["replay"].get("why"))
+    rc = 1
+    hx_toks = [t for t in case.split() if t.startswith("HX:")]
+    if hx_toks and len(hx_toks) == len([t for t in case.split() if t[:1] in "HD" and ":" in t]) and oi:
+        # raw header blocks: decide again - is each block served exactly when the RFC 7541 decoder (same connection-long table) accepts it?
+        model = vlib.model_driver("C07")
+        _, do, _ = vlib.run_lines(model, ["DEC | " + " | ".join(t.split(":")[3] for t in hx_toks)])
+        verdicts = do[0].split(" | ") if do else []
+        st, _ = streams_of(oi[0])
+        rc = 0
+        for t, d in zip(hx_toks, verdicts):
+            sid = int(t.split(":")[1]); e = st.get(sid)
+            served = bool(e and e["body"] and parse_dump(e["body"]) is not None)
+            spec_ok = d not in ("ERR", "DEAD", "?", "")
+            print("stream %d: served=%s, RFC 7541 decoder accepts=%s" % (sid, served, spec_ok))
+            if served and not spec_ok: rc = 1
+            if obj.get("key", "").startswith("hpack-stale-index") and served != spec_ok: rc = 1
     shutil.rmtree(ctx.scratch, ignore_errors=True)
-    return 1
+    return rc
